@@ -235,6 +235,20 @@ def declare_c18(E):
                },
                returns="none", raises=dict(RA, UnicodeDecodeError="True", AttributeError="self.server_mode and isnone(self.server_object)"),
                modifies=None)
+    # the switch for forwarded-tcpip is turned on only by a port-forward request the server granted
+    E.contract(T + "global_request", params={"kind": "str", "data": "any", "wait": "bool"}, returns="opt[obj:Message]",
+               ensures=["(0 <= result.packet.tell() and result.packet.tell() <= len(result.packet.getvalue())) if notnone(result) else True"],
+               ghost={"request_granted": "notnone(result)"}, raises=dict(RA), modifies=[])
+    E.declare_ghost(request_granted="bool")
+    E.contract(T + "request_port_forward", params={"address": "str", "port": "int", "handler": "opt[callable]"},
+               requires={"fresh": "not ghost('request_granted')"},
+               ensures={"handler_installed_only_after_the_server_granted_the_forward": "ghost('request_granted')"},
+               raises={"SSHException": {"when": "True", "ensures": [
+                   # a refused / failed request leaves forwarded-tcpip channels disabled exactly as before
+                   "same_handler(self._tcp_handler, old(self._tcp_handler))"]},
+                   "EOFError": {"when": "True", "ensures": ["same_handler(self._tcp_handler, old(self._tcp_handler))"]},
+                   "OSError": {"when": "True", "ensures": ["same_handler(self._tcp_handler, old(self._tcp_handler))"]}},
+               returns="int", modifies=["self._tcp_handler"])
     ENABLED = ("((local('kind', '') == 'x11' and notnone(self._x11_handler))"
                " or (local('kind', '') == 'auth-agent@openssh.com' and notnone(self._forward_agent_handler))"
                " or (local('kind', '') == 'forwarded-tcpip' and notnone(self._tcp_handler)))")
